@@ -186,6 +186,12 @@ fn validate(kind: Kind, cert: Cert, issuer: &ResourceCert, strict: bool, t: rpki
     }
 }
 
+/// The second public entry point for EE certificates (used for signed objects that are not
+/// published through the repository, e.g. RTA): same conditions as validate_ee_at.
+fn validate_detached(cert: Cert, issuer: &ResourceCert, strict: bool, t: rpki::repository::x509::Time) -> Result<Option<ResourceCert>, String> {
+    cert.validate_detached_ee_at(issuer, strict, t).map(Some).map_err(|e| e.to_string())
+}
+
 /// Evaluation instants around a validity window [nb, na] (whole seconds in the certificate):
 /// (name, inside?, instant) including instants a fraction of a second outside the window.
 fn instants(nb: i64, na: i64) -> Vec<(&'static str, bool, rpki::repository::x509::Time)> {
@@ -362,6 +368,14 @@ fn main() {
                 let touches = |i: u32, c: &LeafClaim| matches!(c, LeafClaim::Blocks(s) if s & i != 0 || s & !i != 0);
                 if touches(*i4, a) || touches(*i6, b) || touches(*ia, c) { nt += 1 }
                 let cert = Cert::decode(der.as_slice()).expect("decodes");
+                // the detached-EE entry point must give the same verdict
+                {
+                    let c2 = Cert::decode(der.as_slice()).expect("decodes");
+                    match guard(|| validate_detached(c2, issuer, true, time(T0))) {
+                        Err(p) => ctx.fail("C01.combined.nopanic", wit(), p),
+                        Ok(r) => if r.is_ok() != want.is_some() { ctx.fail("C01.combined.detached", wit(), format!("validate_detached_ee_at says {}, model {}", r.is_ok(), want.is_some())) },
+                    }
+                }
                 match guard(|| validate(Kind::Ee, cert, issuer, true, time(T0))) {
                     Err(p) => ctx.fail("C01.combined.nopanic", wit(), p),
                     Ok(Err(e)) => { *oc.entry("rejected").or_insert(0) += 1;
@@ -447,14 +461,14 @@ fn main() {
     //---------------------------------------------------------------- relations
     {
         let sp = ctx.space("relations",
-            "leaf kind {ca,ee,router} x AKI {issuer SKI, other key's SKI, absent} x SKI {hash of key, hash of another key} x signing key {issuer, other} x offered issuer {the issuer, another CA with a different key} x not-before/not-after vs 5 evaluation instants {nb-1s, nb, inside, na, na+1s}; oracle: accept <=> AKI == offered issuer's SKI and SKI == SHA-1(key) and signature verifies under the offered issuer's key and nb <= t <= na; non-trivial = exactly one condition violated");
+            "leaf kind {ca, ee, ee through validate_detached_ee_at, router} x AKI {issuer SKI, other key's SKI, absent} x SKI {hash of key, hash of another key} x signing key {issuer, other} x offered issuer {the issuer, another CA with a different key} x not-before/not-after vs 5 evaluation instants {nb-1s, nb, inside, na, na+1s}; oracle: accept <=> AKI == offered issuer's SKI and SKI == SHA-1(key) and signature verifies under the offered issuer's key and nb <= t <= na; non-trivial = exactly one condition violated");
         let ca_res = Res { v4: Claim::Blocks(vec![(0x0a00_0000, 0x0aff_ffff)]), v6: Claim::Missing, asn: Claim::Blocks(vec![(64496, 64511)]) };
         let ca = valid_ca(&signer, &ta, TA_KEY, CA_KEY, ca_res.clone());
         let other_ca = valid_ca(&signer, &ta, TA_KEY, OTHER_KEY, ca_res.clone());
         let nb = T0 - 1000; let na = T0 + 1000;
         let mut cases = Vec::new();
-        for kind in [Kind::Ca, Kind::Ee, Kind::Router] { for aki in 0..3 { for ski in 0..2 { for sk in 0..2 { cases.push((kind, aki, ski, sk)) } } } }
-        cases.par_iter().for_each(|&(kind, aki, ski, sk)| {
+        for (kind, det) in [(Kind::Ca, false), (Kind::Ee, false), (Kind::Ee, true), (Kind::Router, false)] { for aki in 0..3 { for ski in 0..2 { for sk in 0..2 { cases.push((kind, det, aki, ski, sk)) } } } }
+        cases.par_iter().for_each(|&(kind, det, aki, ski, sk)| {
             let res = if kind == Kind::Router { Res { v4: Claim::Missing, v6: Claim::Missing, asn: Claim::Blocks(vec![(64500, 64500)]) } }
                       else { Res { v4: Claim::Blocks(vec![(0x0a00_0000, 0x0a00_00ff)]), v6: Claim::Missing, asn: Claim::Blocks(vec![(64500, 64501)]) } };
             let mut spec = Spec::issued(kind, LEAF_KEY, CA_KEY, signer.ski(CA_KEY), res, Overclaim::Refuse);
@@ -467,7 +481,7 @@ fn main() {
             for (offered_name, offered, offered_key) in [("issuer", &ca, CA_KEY), ("other-ca", &other_ca, OTHER_KEY)] {
                 for (tn, t, tt) in instants(nb, na) {
                     sp.eval();
-                    let wit = || format!("kind={} aki={} ski={} signed_by={} offered={} t={}", kind_name(kind), ["issuer", "other", "absent"][aki], ["hash", "wrong"][ski], ["issuer", "other"][sk], offered_name, tn);
+                    let wit = || format!("kind={}{} aki={} ski={} signed_by={} offered={} t={}", kind_name(kind), if det { "(detached entry point)" } else { "" }, ["issuer", "other", "absent"][aki], ["hash", "wrong"][ski], ["issuer", "other"][sk], offered_name, tn);
                     let c_aki = spec.aki == Some(signer.ski(offered_key));
                     let c_ski = ski == 0;
                     let c_sig = spec.signing_key == offered_key;
@@ -476,7 +490,7 @@ fn main() {
                     if nviol == 1 { sp.nontrivial(1) }
                     let want = nviol == 0;
                     let cert = match Cert::decode(der.as_slice()) { Ok(c) => c, Err(e) => { ctx.fail("C01.relations.decode", wit(), e.to_string()); continue } };
-                    match guard(|| validate(kind, cert, offered, true, tt)) {
+                    match guard(|| if det { validate_detached(cert, offered, true, tt) } else { validate(kind, cert, offered, true, tt) }) {
                         Err(p) => ctx.fail("C01.relations.nopanic", wit(), p),
                         Ok(r) => {
                             sp.outcome(if r.is_ok() { "accepted" } else { "rejected" });
@@ -629,7 +643,15 @@ fn main() {
                         let c = if strict { Cert::decode(m.as_slice()) } else {
                             bcder::Mode::Ber.decode(m.as_slice(), Cert::take_from)
                         };
-                        match c { Err(_) => Err("decode".to_string()), Ok(c) => validate(*kind, c, issuer, strict, time(T0)).map(|_| ()).map_err(|_| "validate".to_string()) }
+                        match c { Err(_) => Err("decode".to_string()), Ok(c) => {
+                            if *kind == Kind::Ee {
+                                // both EE entry points must reject
+                                let c2 = c.clone();
+                                let a = validate(*kind, c, issuer, strict, time(T0)).is_ok();
+                                let b = validate_detached(c2, issuer, strict, time(T0)).is_ok();
+                                if a || b { Ok(()) } else { Err("validate".to_string()) }
+                            } else { validate(*kind, c, issuer, strict, time(T0)).map(|_| ()).map_err(|_| "validate".to_string()) }
+                        } }
                     });
                     match r {
                         Err(p) => ctx.fail("C01.tamper.nopanic", wit(), p),
